@@ -42,6 +42,28 @@ type htask struct {
 	EffVal  string   `json:"eff_val,omitempty"`
 	EffFrom int      `json:"eff_from,omitempty"` // instead of EffVal: copy the content of this file (index+1)
 	Outs    []string `json:"outs,omitempty"`     // declared outputs (strings)
+	Empty   bool     `json:"empty,omitempty"`    // the task has no commands (nothing to observe but spok's own report)
+}
+
+// slot: tasks are told apart by name (a spokfile variant may define the same name differently):
+// the model keeps one entry per name, at the index of the first definition of that name.
+func (p hprog) slot(ti int) int {
+	for j, t := range p.Tasks {
+		if t.Name == p.Tasks[ti].Name {
+			return j
+		}
+	}
+	return ti
+}
+
+// dupNames: some name has more than one definition
+func (p hprog) dupNames() bool {
+	for i := range p.Tasks {
+		if p.slot(i) != i {
+			return true
+		}
+	}
+	return false
 }
 
 type hfile struct {
@@ -126,6 +148,10 @@ func (p hprog) text() string {
 		if len(t.Outs) > 0 {
 			outs = " -> (\"" + strings.Join(t.Outs, "\", \"") + "\")"
 		}
+		if t.Empty {
+			fmt.Fprintf(&sb, "task %s(%s)%s {\n}\n\n", t.Name, strings.Join(deps, ", "), outs)
+			continue
+		}
 		fmt.Fprintf(&sb, "task %s(%s)%s {\n    echo %s:1 >> \"$VLOG\"\n    test ! -e \"$VCTL/fail_%s\"\n%s    echo %s:3 >> \"$VLOG\"\n}\n\n", t.Name, strings.Join(deps, ", "), outs, t.Name, t.Name, eff, t.Name)
 	}
 	return sb.String()
@@ -198,6 +224,13 @@ func histCatalogue() []hprog {
 			Files: []hfile{lit("seed.txt"), globf("include/api.h", absent, "gen"), globf("include/old.h", "v0")}},
 		// task names that a cache file might use for its own bookkeeping
 		{Name: "P23-bookkeeping-names", Tasks: []htask{{Name: "version", Lits: []string{"a.txt"}}, {Name: "cache", Lits: []string{"a.txt"}}}, Files: []hfile{lit("a.txt")}},
+		// a literal dependency whose name has pattern characters but no star
+		{Name: "P24-literal-with-brackets", Tasks: []htask{{Name: "ta", Lits: []string{"p[id].txt", "b.txt"}}, {Name: "tb", Lits: []string{"q{a,b}?.txt"}}}, Files: []hfile{lit("p[id].txt"), lit("b.txt"), lit("q{a,b}?.txt")}},
+		// the spokfile is edited so that a task loses and regains its file dependency
+		{Name: "P25-dependency-list-edited", ReqMax: 1, Tasks: []htask{{Name: "ta", Lits: []string{"cfg.txt"}}, {Name: "ta"}, {Name: "ta", Globs: []string{"*.cfg"}}},
+			Variants: [][]int{{0}, {1}, {2}}, Files: []hfile{lit("cfg.txt"), globf("x.cfg", "v0", "v1")}},
+		// a task without commands (it only groups dependencies) next to an ordinary one
+		{Name: "P26-task-without-commands", Tasks: []htask{{Name: "te", Lits: []string{"e.txt"}, Empty: true}, {Name: "ta", Deps: []string{"te"}, Lits: []string{"a.txt"}}}, Files: []hfile{lit("e.txt"), lit("a.txt")}},
 		{Name: "P8-three-tasks", Tasks: []htask{{Name: "ta", Lits: []string{"a.txt"}}, {Name: "tb", Lits: []string{"b.txt"}}, {Name: "tc", Deps: []string{"ta", "tb"}}}, Files: []hfile{lit("a.txt"), lit("b.txt")}},
 	}
 }
@@ -311,12 +344,28 @@ type hmodel struct {
 	// Unrec: "1" if the last success happened in a run during which the environment kept spok from
 	// writing its cache (and spok reported that error): the "unchanged => skipped" direction cannot bind then
 	Unrec []string `json:"unrec,omitempty"`
+	// Maybe: for a task without commands, the inputs it MAY have completed on unobserved (it was part of a
+	// run that ended in an error, so spok reported nothing and there is no command to leave a trace):
+	// a later skip on those inputs is not held against spok. Alternatives separated by "\x04".
+	Maybe []string `json:"maybe,omitempty"`
 }
 
 const none = "\x00"
 
 func (m hmodel) key() string {
-	return strings.Join(m.Last, "\x01") + "\x02" + strings.Join(m.Failed, "\x01")
+	return strings.Join(m.Last, "\x01") + "\x02" + strings.Join(m.Failed, "\x01") + "\x02" + strings.Join(m.Maybe, "\x01")
+}
+
+func maybeHas(m []string, si int, now string) bool {
+	if si >= len(m) || m[si] == "" || m[si] == none {
+		return false
+	}
+	for _, a := range strings.Split(m[si], "\x04") {
+		if a == now {
+			return true
+		}
+	}
+	return false
 }
 
 type hop struct {
@@ -633,15 +682,20 @@ func evalRun(p hprog, d hdisk, m hmodel, op hop, ex hexec) (hmodel, []hviol) {
 	}
 	idx := map[string]int{}
 	for i, t := range p.Tasks {
-		idx[t.Name] = i
+		if p.present(d.Var, i) {
+			idx[t.Name] = i
+		}
 	}
 	out := ex.Out
 	if out.Panic != "" {
 		vs = append(vs, hviol{"*", "panic", out.Panic})
 	}
-	nm := hmodel{Last: append([]string{}, m.Last...), LastPost: append([]string{}, m.LastPost...), Failed: append([]string{}, m.Failed...), Unrec: append([]string{}, m.Unrec...)}
+	nm := hmodel{Last: append([]string{}, m.Last...), LastPost: append([]string{}, m.LastPost...), Failed: append([]string{}, m.Failed...), Unrec: append([]string{}, m.Unrec...), Maybe: append([]string{}, m.Maybe...)}
 	for len(nm.Unrec) < len(p.Tasks) {
 		nm.Unrec = append(nm.Unrec, "0")
+	}
+	for len(nm.Maybe) < len(p.Tasks) {
+		nm.Maybe = append(nm.Maybe, none)
 	}
 	cur := hdisk{Files: append([]string{}, d.Files...)}
 	// execute one task in the model: returns inputs before and after its commands
@@ -655,10 +709,11 @@ func evalRun(p hprog, d hdisk, m hmodel, op hop, ex hexec) (hmodel, []hviol) {
 			}
 		}
 		post = inputsNow(p, t, cur)
-		if failing[t.Name] {
+		ti = p.slot(ti)
+		if failing[t.Name] && !t.Empty { // a task without commands has nothing that could fail
 			nm.Failed[ti] = pre
 		} else {
-			nm.Last[ti], nm.LastPost[ti], nm.Failed[ti] = pre, post, none
+			nm.Last[ti], nm.LastPost[ti], nm.Failed[ti], nm.Maybe[ti] = pre, post, none, none
 			// if the environment kept spok from recording this success (and spok said so: the run ended
 			// with an error) skip-soundness still binds, "unchanged => skipped" cannot
 			nm.Unrec[ti] = "0"
@@ -670,11 +725,31 @@ func evalRun(p hprog, d hdisk, m hmodel, op hop, ex hexec) (hmodel, []hviol) {
 	}
 	if out.Failed() {
 		// nothing is reported; the model still learns what really ran, in order
+		before := hdisk{Files: append([]string{}, cur.Files...)}
 		for _, l := range out.Log {
 			if strings.HasSuffix(l, ":1") {
 				if ti, ok := idx[strings.TrimSuffix(l, ":1")]; ok {
 					exec(ti)
 				}
+			}
+		}
+		// tasks without commands may have completed unobserved, before or after the effects of the others
+		for name, ti := range idx {
+			if p.Tasks[ti].Empty {
+				_ = name
+				si := p.slot(ti)
+				set := map[string]bool{inputsNow(p, p.Tasks[ti], before): true, inputsNow(p, p.Tasks[ti], cur): true}
+				if nm.Maybe[si] != none && nm.Maybe[si] != "" {
+					for _, a := range strings.Split(nm.Maybe[si], "\x04") {
+						set[a] = true
+					}
+				}
+				var alts []string
+				for a := range set {
+					alts = append(alts, a)
+				}
+				sort.Strings(alts)
+				nm.Maybe[si] = strings.Join(alts, "\x04")
 			}
 		}
 		return nm, vs
@@ -685,14 +760,20 @@ func evalRun(p hprog, d hdisk, m hmodel, op hop, ex hexec) (hmodel, []hviol) {
 			continue
 		}
 		t := p.Tasks[ti]
+		si := p.slot(ti)
 		now := inputsNow(p, t, cur)
 		ran, _ := markers(out.Log, t.Name)
+		if t.Empty {
+			ran = !r.Skipped // nothing else to go by
+		}
 		if r.Skipped {
 			// C01: a reported skip must be backed by the last success
-			if m.Last[ti] == none && nm.Last[ti] == none {
+			if m.Last[si] == none && nm.Last[si] == none && maybeHas(nm.Maybe, si, now) {
+				// a task without commands that may have completed, unobserved, in a run that ended in an error
+			} else if m.Last[si] == none && nm.Last[si] == none {
 				vs = append(vs, hviol{"C01", "skipped-never-succeeded", fmt.Sprintf("task %s reported skipped but it has not completed successfully since the cache was (re)created", t.Name)})
-			} else if nm.Last[ti] != now && nm.LastPost[ti] != now {
-				vs = append(vs, hviol{"C01", "skipped-on-different-inputs", fmt.Sprintf("task %s reported skipped with inputs {%s}, but it last completed successfully on {%s}", t.Name, now, nm.Last[ti])})
+			} else if nm.Last[si] != now && nm.LastPost[si] != now && !maybeHas(nm.Maybe, si, now) {
+				vs = append(vs, hviol{"C01", "skipped-on-different-inputs", fmt.Sprintf("task %s reported skipped with inputs {%s}, but it last completed successfully on {%s}", t.Name, now, nm.Last[si])})
 			}
 			if ran {
 				vs = append(vs, hviol{"C02", "skipped-but-commands-ran", fmt.Sprintf("task %s reported skipped but its commands ran", t.Name)})
@@ -708,8 +789,8 @@ func evalRun(p hprog, d hdisk, m hmodel, op hop, ex hexec) (hmodel, []hviol) {
 		}
 		if !op.Force {
 			// C02: unchanged since last success => skipped
-			corner := nm.Failed[ti] != none && nm.Failed[ti] == now
-			if declaresFiles(t) && now != "" && nm.Last[ti] == now && nm.LastPost[ti] == now && !corner && nm.Unrec[ti] != "1" {
+			corner := nm.Failed[si] != none && nm.Failed[si] == now
+			if declaresFiles(t) && now != "" && nm.Last[si] == now && nm.LastPost[si] == now && !corner && nm.Unrec[si] != "1" {
 				if !r.Skipped || ran {
 					vs = append(vs, hviol{"C02", "unchanged-task-rerun", fmt.Sprintf("task %s last completed successfully on exactly the current inputs {%s} but was run again (request %v)", t.Name, now, op.Req)})
 				}
@@ -931,7 +1012,7 @@ func histSearch(sb *proj.Sandbox, p hprog, prop string, cap int, withForce bool,
 						res.Outcomes["run-ok"]++
 					}
 				} else if op.Kind == "rmcache" {
-					nm = hmodel{Last: make([]string, len(p.Tasks)), LastPost: make([]string, len(p.Tasks)), Failed: append([]string{}, st.M.Failed...), Unrec: append([]string{}, st.M.Unrec...)}
+					nm = hmodel{Last: make([]string, len(p.Tasks)), LastPost: make([]string, len(p.Tasks)), Failed: append([]string{}, st.M.Failed...), Unrec: append([]string{}, st.M.Unrec...)} // Maybe: gone with the cache
 					for i := range nm.Last {
 						nm.Last[i], nm.LastPost[i] = none, none
 					}
@@ -1122,6 +1203,7 @@ func histReplay(path string) int {
 				for k := range st.M.Last {
 					st.M.Last[k], st.M.LastPost[k] = none, none
 				}
+				st.M.Maybe = nil
 			}
 			st.D = applyEdit(st.D, s.Op)
 			continue
@@ -1182,35 +1264,58 @@ func c14DefaultForce(run *ev.Run) int64 {
 	var calls int64
 	for _, shape := range []string{"chain", "independent"} {
 		for _, flags := range [][]string{{"--force"}, {"-f"}, {"--force", "--json"}, {"-f", "--quiet"}, {"--json", "-f"}, {"--force", "default"}, {"default", "-f"}} {
-			t.Reset()
-			proj := t.Mkdir("home/w/proj")
-			ctl := t.Mkdir("ctl")
-			dep := "dep, "
-			if shape == "independent" {
-				dep = ""
-			}
-			t.File("home/w/proj/spokfile", "task dep(\"a.txt\") {\n    echo dep >> \"$VLOG\"\n}\n\ntask default("+dep+"\"b.txt\") {\n    echo default >> \"$VLOG\"\n}\n")
-			t.File("home/w/proj/a.txt", "a\n")
-			t.File("home/w/proj/b.txt", "b\n")
-			vlog := filepath.Join(ctl, "vlog")
-			env := []string{"VLOG=" + vlog, "VCTL=" + ctl}
-			home := filepath.Join(root, "home")
-			// fill the cache: everything is up to date afterwards
-			bin.Run(proj, home, env, "dep", "default")
-			o := bin.Run(proj, home, env, "dep", "default", "--json")
-			calls += 2
-			os.Remove(vlog)
-			o = bin.Run(proj, home, env, flags...)
-			calls++
-			log := strings.Join(readLog(vlog), ",")
-			want := "dep,default"
-			if shape == "independent" {
-				want = "default"
-			}
-			if o.Exit != 0 || log != want {
-				run.Report(ev.Violation{Key: fmt.Sprintf("default-force %s %v", shape, flags), Class: "not-executed-under-force",
-					What: fmt.Sprintf("spokfile with a task named default (%s); after an up-to-date run, `spok %s` executed [%s] (exit %d), expected [%s]: a forced run must execute every task of the closure", shape, strings.Join(flags, " "), log, o.Exit, want),
-					Case: map[string]any{"shape": shape, "flags": flags}})
+			for _, ambient := range []string{"", "environment", "dotenv"} {
+				if ambient != "" && len(flags) > 1 && flags[1] != "default" {
+					continue
+				}
+				t.Reset()
+				proj := t.Mkdir("home/w/proj")
+				ctl := t.Mkdir("ctl")
+				dep := "dep, "
+				if shape == "independent" {
+					dep = ""
+				}
+				t.File("home/w/proj/spokfile", "task dep(\"a.txt\") {\n    echo dep >> \"$VLOG\"\n}\n\ntask default("+dep+"\"b.txt\") {\n    echo default >> \"$VLOG\"\n}\n")
+				t.File("home/w/proj/a.txt", "a\n")
+				t.File("home/w/proj/b.txt", "b\n")
+				vlog := filepath.Join(ctl, "vlog")
+				env := []string{"VLOG=" + vlog, "VCTL=" + ctl}
+				// an environment (or .env file) that spells out the default of every switch: what the command line says still holds
+				var spelled []string
+				for _, f := range []string{"FORCE", "QUIET", "JSON", "DEBUG", "CLEAN", "FMT", "INIT", "SHOW", "VARS", "NO_FORCE"} {
+					v := "0"
+					if ambient == "dotenv" {
+						v = "false"
+					}
+					if f == "NO_FORCE" {
+						v = "1"
+					}
+					spelled = append(spelled, "SPOK_"+f+"="+v, f+"="+v)
+				}
+				switch ambient {
+				case "environment":
+					env = append(env, spelled...)
+				case "dotenv":
+					t.File("home/w/proj/.env", strings.Join(spelled, "\n")+"\n")
+				}
+				home := filepath.Join(root, "home")
+				// fill the cache: everything is up to date afterwards
+				bin.Run(proj, home, env, "dep", "default")
+				o := bin.Run(proj, home, env, "dep", "default", "--json")
+				calls += 2
+				os.Remove(vlog)
+				o = bin.Run(proj, home, env, flags...)
+				calls++
+				log := strings.Join(readLog(vlog), ",")
+				want := "dep,default"
+				if shape == "independent" {
+					want = "default"
+				}
+				if o.Exit != 0 || log != want {
+					run.Report(ev.Violation{Key: fmt.Sprintf("default-force %s %v %s", shape, flags, ambient), Class: "not-executed-under-force",
+						What: fmt.Sprintf("spokfile with a task named default (%s); after an up-to-date run, `spok %s` (ambient settings: %q) executed [%s] (exit %d), expected [%s]: a forced run must execute every task of the closure", shape, strings.Join(flags, " "), ambient, log, o.Exit, want),
+						Case: map[string]any{"shape": shape, "flags": flags, "ambient": ambient}})
+				}
 			}
 		}
 	}
